@@ -132,12 +132,15 @@ CLAIMS = {
         "ref": "DESIGN.md §4 C13",
     },
     "C14": {
-        "technique": "Lean 4 theorem unit_table over the generated parse_filesize ladder (decide over generated table × documentation table, lifted by a lemma about any well-formed ladder; parse∘show lemmas for u64 and f64) + in-process and CLI correspondence + multiplier/round-trip/monotonicity oracles",
+        "technique": "Lean 4 theorems unit_table and fraction_table over the generated parse_filesize ladder (decide over generated table × documentation table, lifted by a lemma about any well-formed ladder; parse∘show lemmas for u64 and f64; plain decimals scaled in integers) + in-process and CLI correspondence + multiplier/round-trip/monotonicity oracles",
         "text": ("Theorems: for every natural n and every documented unit u (k, kib, kb, m, mib, mb, g, gib, gb, t, tib, tb, b), "
                  "parse_filesize(\"<n><u>\") = n × the documented multiplier while the product fits in u64 — proved from two `decide` facts "
                  "over the ladder regenerated from the Rust source on every run (well-formedness; first matching rung = the unit with the "
-                 "documented multiplier) and a general lemma about well-formed ladders; letter case is irrelevant. Fractional literals and "
-                 "the FORMAT_SIZE/fsize specifier grammar are modelled in ℚ (exact on dyadic values, one unit in the last place otherwise) "
+                 "documented multiplier) and a general lemma about well-formed ladders; letter case is irrelevant. fraction_table: "
+                 "\"<digits>.<digits><u>\" = floor(decimal × multiplier), exactly, for up to 38 fraction digits and scaled digits within "
+                 "u128, saturating at u64::MAX (true since the D67 fix; the flag that the float rungs go through scale_size is read "
+                 "from the source on every run). Exponent forms and longer fractions take the f64 route (model in ℚ, within one byte). "
+                 "The FORMAT_SIZE/fsize specifier grammar is modelled in ℚ (exact on dyadic values, one unit in the last place otherwise) "
                  "and decided by in-process + CLI correspondence; monotonicity and round-trip within the displayed precision by oracle."),
         "ref": "DESIGN.md §4 C14",
     },
